@@ -247,11 +247,11 @@ func rulesC16(c *Ctx) {
 					}
 					if !isBO || bo.Op.String() != "+" || bo.X != ssa.Value(p) || !isK || k <= 0 {
 						allInc = false
-						c.Fail("C16.recursion", fname(fn)+":"+p.Name()+"+1 on every recursive call", c.P.InstrPos(call), "a recursive call passes "+vstrShort(a[pi])+" for the depth parameter "+p.Name()+" instead of "+p.Name()+"+k: nesting through this call is not counted and the depth bound can be bypassed")
+						c.Fail("C16.recursion", fname(fn)+":"+pname(p)+"+1 on every recursive call", c.P.InstrPos(call), "a recursive call passes "+vstrShort(a[pi])+" for the depth parameter "+pname(p)+" instead of "+pname(p)+"+k: nesting through this call is not counted and the depth bound can be bypassed")
 					}
 				}
 				if allInc {
-					found = p.Name()
+					found = pname(p)
 				} else {
 					found = "!"
 				}
@@ -267,7 +267,7 @@ func rulesC16(c *Ctx) {
 					rec := true
 					for _, call := range self {
 						a := call.Common().Args
-						if pi >= len(a) || !derivedFromParam(a[pi], p.Name()) {
+						if pi >= len(a) || !derivedFromParam(a[pi], pname(p)) {
 							rec = false
 						}
 					}
@@ -283,7 +283,7 @@ func rulesC16(c *Ctx) {
 						}
 					}
 					if rec && ext && nExt > 0 && len(ix.FuncRefs[fname(fn)]) == 0 {
-						found = "verified:" + p.Name()
+						found = "verified:" + pname(p)
 						break
 					}
 				}
